@@ -423,7 +423,7 @@ func (e *Eng) actRefresh() {
 			}
 		}
 		for _, a := range g.Aud {
-			if !fosite.Arguments(cl.GetAudience()).Has(a) {
+			if !hasExact(cl.GetAudience(), a) {
 				reasons = append(reasons, "client-lost-audience")
 				break
 			}
